@@ -596,14 +596,15 @@ impl Check for C20 {
         out
     }
     fn rule(&self) -> String {
-        "Key histories over {letters, digit, space, +, ;, _, -, é (2 bytes), 😀 (4 bytes), Backspace, Delete, Left, Right, Ctrl+Left, Ctrl+Right, Up, Down, Enter} starting from one of four pre-existing histories (empty, one entry, three entries incl. multi-byte and `;`, entries with leading blanks). Fixed part: every sequence of length 1..3 (quick) / 1..4 (thorough) over a 14-key alphabet from the empty and a three-entry history (enumerated completely; this part is enumeration and is labelled so). Seeded part: 1..40 random keys, one third with a burst of word motions placed right after a multi-byte character. Phase 1 drives the real Terminal::handle_key key by key and compares line, cursor, focused history entry and end-of-line with RefEditor after every key (cursor must stay within 0..=characters of the line; no panic). Phase 2 feeds the same keys to the real Terminal::read() path on the simulated key device and compares the returned commands (lines split on `;`) and the history list. Non-trivial: at least 2 keys; distinct = distinct key history.".into()
+        "Key histories over {letters, digit, space, +, ;, _, -, é (2 bytes), 😀 (4 bytes), Backspace, Delete, Left, Right, Ctrl+Left, Ctrl+Right, Up, Down, Enter} starting from one of four pre-existing histories (empty, one entry, three entries incl. multi-byte and `;`, entries with leading blanks). Fixed part: every sequence of length 1..3 (quick) / 1..4 (thorough) over a 14-key alphabet from the empty and a three-entry history (enumerated completely; this part is enumeration and is labelled so). Seeded part: 1..40 random keys, one third with a burst of word motions placed right after a multi-byte character. Phase 1 drives the real Terminal::handle_key key by key and compares line, cursor, focused history entry and end-of-line with RefEditor after every key (cursor must stay within 0..=characters of the line; no panic). Phase 2 feeds the same keys to the real Terminal::read() path on the simulated key device and compares the returned commands (lines split on `;`) and the history list. One third of the seeded runs build the terminal with the real constructor on a history file in a scratch cache directory: the file holds the starting history (one in six of these: 999..2500 lines), and half of them damage it the way real files get damaged (a blank line as two sessions appending at once leave it, a line of invalid UTF-8, CRLF endings, no final newline, a directory in its place); the loaded list must be the file's intact lines, and afterwards the file must be the old bytes plus one line per new history entry. One fifth of the seeded runs add phase 3, a whole debugger session on a one-instruction program with echo commands in --command (blank pieces included) followed by typed lines with history recall: the commands the debugger accepts must be the argument's, then exactly the reference editor's lines (commands from --command are not terminal history). Non-trivial: at least 2 keys; distinct = distinct key history.".into()
     }
     fn assumptions(&self) -> Vec<String> {
         vec![
             "RefEditor follows the doc comments of terminal.rs: a history entry is copied before any modifying key (character, Backspace, Delete, Enter); a submitted line is appended to history unless equal to the last entry".into(),
             "word motion follows Vim `w`/`b` with classes whitespace / alphanumeric / other; where no next word exists the position chosen by the editor is accepted if it lies between the cursor and the end of the line (adopted)".into(),
             "there is no injected fault here beyond pre-existing history: this is seeded (and, for short sequences, exhaustive) exploration of event histories against a reference model; weakest fit for the technique family, stated in DESIGN.md".into(),
-            "history entries are non-blank (the editor itself never stores a blank line)".into(),
+            "history entries are non-blank (the editor itself never stores a blank line); a blank line in the history file may be kept or dropped on load, but Enter never submits a blank line (doc comment of handle_key)".into(),
+            "after a line of invalid UTF-8 in the history file the editor may keep the lines before it or all intact lines (both accepted)".into(),
         ]
     }
     fn components(&self) -> J {
@@ -611,7 +612,7 @@ impl Check for C20 {
             .set(
                 "real",
                 J::Arr(
-                    ["Terminal::handle_key", "find_word_next/find_word_back", "insert/remove_char_index", "update_next/get_current", "Terminal::read/read_line/read_line_raw/get_next_command", "history push rule"]
+                    ["Terminal::handle_key", "find_word_next/find_word_back", "insert/remove_char_index", "update_next/get_current", "Terminal::read/read_line/read_line_raw/get_next_command", "history push rule", "TerminalHistory::new/read_file/push (history file)", "Stream::new + Debugger::run_command (phase 3)"]
                         .iter()
                         .map(|s| J::from(*s))
                         .collect(),
@@ -620,7 +621,7 @@ impl Check for C20 {
             .set(
                 "stub",
                 J::Arr(
-                    ["crossterm event source (simulated key queue)", "raw mode switching (no-op)", "history file (absent: constructor without file)", "prompt drawing goes to the captured stderr"]
+                    ["crossterm event source (simulated key queue)", "raw mode switching (no-op)", "history file: real file I/O on a scratch XDG_CACHE_HOME for one third of the seeded runs, constructor without file otherwise", "prompt drawing goes to the captured stderr"]
                         .iter()
                         .map(|s| J::from(*s))
                         .collect(),
@@ -628,7 +629,7 @@ impl Check for C20 {
             )
     }
     fn expected_probes(&self) -> Vec<&'static str> {
-        vec!["probe:multibyte_on_line", "probe:word_motion_with_multibyte", "probe:history_recall", "probe:line_submitted", "probe:commands_read"]
+        vec!["probe:multibyte_on_line", "probe:word_motion_with_multibyte", "probe:history_recall", "probe:line_submitted", "probe:commands_read", "probe:argument_then_terminal_session"]
     }
 }
 
